@@ -1,7 +1,178 @@
-import TF.Model.Merkle
-import TF.Spec.Merkle
-/-! placeholder, theorems follow -/
+import TF.Proofs.MerkleUnique
+/-!
+# C10 — Merkle trees build correctly under any schedule; honest proofs are complete and minimal
+
+Property theorems only (helper lemmas live in `TF/Proofs/Merkle*.lean`).  Everything is proved for an **arbitrary hash
+function** `H : D → D → D` (the driver instantiates it with Tip5's `hash_pair`).
+
+Notation.  `fromDigests H filler cutoff ds` is the model of `CpuParallel::from_digests` with the parallelisation
+cut-off as a *parameter* (`fromDigestsFuel … fuel …` is the same with explicit loop fuel and result `none` when the
+fuel runs out, i.e. non-termination).  `Spec.IsMerkleTree H filler ds nodes`: `nodes` has `2n` entries, `nodes[0]` is the
+filler, the leafs are copied to `[n, 2n)` and `nodes[i] = H nodes[2i] nodes[2i+1]` for `1 ≤ i < n`.
+`Spec.treeNodes` is the explicit tree (`nodeVal` over the leafs).  `Spec.needed h idxs` is the documented minimal
+authentication structure: the non-root nodes that cannot be computed from the revealed leafs but whose sibling can
+(`Spec.covered` = "computable"), in descending order of node index.  `authPath H f 0 h k` is the sibling path of leaf
+node `k`.  Thread schedules are not modelled: a parallel level is a pure `map` (closures are pure, `collect_into_vec`
+preserves order) — schedule independence is argued from this and exercised by the correspondence check only.
+-/
+set_option linter.unusedSectionVars false
 namespace TF.C10
-open TF.Merkle
-theorem placeholder_total : True := trivial
+open TF.Gen TF.Merkle
+
+variable {D : Type} [DecidableEq D] (H : D → D → D)
+
+/-- a small non-injective "hash" on `Nat` for the non-vacuity examples -/
+def Hx (a b : Nat) : Nat := (3 * a + 5 * b + 1) % 1000003
+
+/-- **termination for every cut-off** (0, 1, …, larger than the tree): the loop fuel `n + 1` of the model is never
+    exhausted, for every list of digests -/
+theorem from_digests_terminates (filler : D) (cutoff : Nat) (ds : List D) :
+    ∃ r, fromDigestsFuel H filler cutoff (ds.length + 1) ds = some r :=
+  fromDigestsFuel_terminates H filler cutoff ds
+example : fromDigestsFuel Hx 0 0 5 [1, 2, 3, 4] = some (.ok ⟨[0, 193, 14, 30, 1, 2, 3, 4]⟩) := by decide +kernel
+
+/-- the defect F2, for the record: with the loop guard as it was before the fix (`cnt >= cutoff` only) and cut-off 0
+    the parallel loop never exits once the level size has reached 0 — whatever the fuel -/
+theorem from_digests_diverged_before_F2 (acc : Nat) (nodes : List D) (fuel : Nat) :
+    parLoopBeforeF2 H 0 fuel 0 acc nodes = none :=
+  parLoopBeforeF2_diverges H acc nodes fuel
+example : parLoopBeforeF2 Hx 0 1000 (2 / 2) 0 [0, 0, 1, 2] = none := by decide +kernel
+
+/-- **construction is correct for every cut-off**: for `2^h` leafs the result is a Merkle tree — every inner node is the
+    hash of its two children, the leafs are copied — and it is the explicit tree `Spec.treeNodes` -/
+theorem from_digests_spec (filler : D) (cutoff : Nat) {ds : List D} {h : Nat} (hn : ds.length = 2^h) :
+    ∃ t, fromDigests H filler cutoff ds = .ok t ∧ Spec.IsMerkleTree H filler ds t.nodes ∧
+      t.nodes = Spec.treeNodes H filler h ds := by
+  obtain ⟨t, h1, h2⟩ := fromDigests_ok H filler cutoff hn
+  exact ⟨t, h1, h2, merkle_eq_treeNodes H hn h2⟩
+example : ([1, 2, 3, 4] : List Nat).length = 2^2 := by decide
+
+/-- the result does not depend on the cut-off (hence not on the environment variable) -/
+theorem from_digests_cutoff_independent (filler : D) (c c' : Nat) (ds : List D) :
+    fromDigests H filler c ds = fromDigests H filler c' ds := by
+  by_cases he : ds = []
+  · subst he; rw [fromDigests_empty, fromDigests_empty]
+  · by_cases hp : ∃ h, ds.length = 2^h
+    · obtain ⟨h, hn⟩ := hp
+      obtain ⟨t, h1, _, e1⟩ := from_digests_spec H filler c hn
+      obtain ⟨t', h2, _, e2⟩ := from_digests_spec H filler c' hn
+      rw [h1, h2]
+      cases t; cases t'
+      simp only at e1 e2
+      rw [e1, e2]
+    · rw [fromDigests_not_pow2 H filler c he hp, fromDigests_not_pow2 H filler c' he hp]
+example : fromDigests Hx 0 0 [1, 2, 3, 4] = fromDigests Hx 0 (2^30) [1, 2, 3, 4] := from_digests_cutoff_independent Hx 0 _ _ _
+
+/-- **rejection**: no leafs, or a number of leafs that is not a power of two, is an error for every cut-off; and
+    conversely a tree is only ever returned for a power of two -/
+theorem from_digests_rejects (filler : D) (cutoff : Nat) (ds : List D) :
+    (ds = [] → fromDigests H filler cutoff ds = .err .tooFewLeafs) ∧
+    (ds ≠ [] → (¬ ∃ h, ds.length = 2^h) → fromDigests H filler cutoff ds = .err .incorrectNumberOfLeafs) ∧
+    (∀ t, fromDigests H filler cutoff ds = .ok t → ∃ h, ds.length = 2^h) := by
+  refine ⟨fun he => by subst he; exact fromDigests_empty H filler cutoff,
+    fun he hp => fromDigests_not_pow2 H filler cutoff he hp, ?_⟩
+  intro t ht
+  by_cases he : ds = []
+  · subst he; rw [fromDigests_empty] at ht; cases ht
+  · apply Classical.byContradiction
+    intro hp
+    rw [fromDigests_not_pow2 H filler cutoff he hp] at ht; cases ht
+example : fromDigests Hx 0 0 [1, 2, 3] = .err .incorrectNumberOfLeafs := by decide +kernel
+
+/-- **the authentication structure is exactly the documented minimal node set**: for in-range indices (any order,
+    repetitions) `authentication_structure` returns the tree's nodes at `Spec.needed h idxs`, and that list is strictly
+    descending (so de-duplicated) and consists exactly of the non-root nodes that are needed (their sibling is
+    computable) but not computable themselves -/
+theorem auth_structure_minimal (filler : D) {ds : List D} {h : Nat} {t : Tree D} (hn : ds.length = 2^h) (hh : h ≤ 31)
+    (hm : Spec.IsMerkleTree H filler ds t.nodes) {idxs : List Nat} (hi : ∀ i ∈ idxs, i < 2^h) :
+    authIdx (2^h) idxs = .ok (Spec.needed h idxs) ∧
+    t.authStructure idxs = .ok ((Spec.needed h idxs).map (fun k => (t.nodes[k]?).getD filler)) ∧
+    (∀ k ∈ Spec.needed h idxs, (t.nodes[k]?).isSome) ∧
+    (Spec.needed h idxs).Pairwise (· > ·) ∧
+    (∀ k, k ∈ Spec.needed h idxs ↔
+      (k < 2^(h+1) ∧ 2 ≤ k ∧ Spec.covered h idxs k = false ∧ Spec.covered h idxs (sib k) = true)) := by
+  refine ⟨authIdx_eq_needed (by omega) hi, tree_authStructure H hn (by omega) hm hi, ?_, needed_desc h idxs,
+    fun k => mem_needed⟩
+  intro k hk
+  have hlt : k < t.nodes.length := by rw [hm.1, hn, ← two_pow_succ]; exact (mem_needed.1 hk).1
+  rw [List.getElem?_eq_getElem hlt]; rfl
+example : Spec.needed 3 [0, 2, 0] = [11, 9, 3] := by decide +kernel
+
+/-- **honest proofs verify**: for every list of in-range leaf indices — any order, with repetitions — the inclusion proof
+    produced from a tree built with any cut-off is accepted against the tree's root (no panic anywhere) -/
+theorem honest_proof_verifies (filler : D) (cutoff : Nat) {ds : List D} {h : Nat} {t : Tree D} (hn : ds.length = 2^h)
+    (hh : h ≤ MAX_TREE_HEIGHT) (ht : fromDigests H filler cutoff ds = .ok t) {idxs : List Nat}
+    (hi : ∀ i ∈ idxs, i < ds.length) :
+    ∃ p root, t.inclusionProof idxs = .ok p ∧ t.root = .ok root ∧ verify H p root = .ok true := by
+  have hh' : h ≤ 31 := hh
+  obtain ⟨t', ht', hm⟩ := fromDigests_ok H filler cutoff hn
+  rw [ht] at ht'; cases ht'
+  have hi' : ∀ i ∈ idxs, i < 2^h := fun i hx => by rw [← hn]; exact hi i hx
+  have hsz : t.nodes.length ≤ USIZE := by
+    rw [hm.1, hn, ← two_pow_succ]
+    have : 2^(h+1) ≤ 2^32 := two_pow_le_of_le (by omega)
+    have : (2:Nat)^32 ≤ 2^64 := by decide
+    unfold USIZE; omega
+  refine ⟨_, _, tree_inclusionProof H hn (by omega) hm hsz hi', tree_root H hn hm, ?_⟩
+  rw [verify_eq_refVerify]
+  congr 1
+  unfold Spec.refVerify
+  by_cases hne : idxs = []
+  · subst hne
+    simp [Proof.isTrivial, honestProof, needed_nil]
+  · rw [honest_wellFormed hh' hi', honest_refRoot H hn hh' hm hi' hne]
+    simp
+example : ∃ t, fromDigests Hx 0 1 [1, 2, 3, 4, 5, 6, 7, 8] = .ok t ∧
+    (do let p ← t.inclusionProof [5, 0, 5]; let r ← t.root; verify Hx p r) = .ok true := ⟨_, rfl, by decide +kernel⟩
+
+/-- **paths expand**: the honest proof for `idxs` expands (`into_authentication_paths`) to the individual sibling paths of
+    the tree, in the order of `idxs`, and each path hashes its leaf up to the root -/
+theorem paths_expand (filler : D) (cutoff : Nat) {ds : List D} {h : Nat} {t : Tree D} (hn : ds.length = 2^h)
+    (hh : h ≤ MAX_TREE_HEIGHT) (ht : fromDigests H filler cutoff ds = .ok t) {idxs : List Nat}
+    (hi : ∀ i ∈ idxs, i < ds.length) :
+    ∃ p, t.inclusionProof idxs = .ok p ∧
+      intoAuthPaths H p = .ok (idxs.map (fun i => authPath H (leafFn filler ds h) 0 h (i + 2^h))) ∧
+      ∀ i ∈ idxs, t.root = .ok (foldPath H (i + 2^h) (leafFn filler ds h (i + 2^h))
+        (authPath H (leafFn filler ds h) 0 h (i + 2^h))) := by
+  have hh' : h ≤ 31 := hh
+  obtain ⟨t', ht', hm⟩ := fromDigests_ok H filler cutoff hn
+  rw [ht] at ht'; cases ht'
+  have hi' : ∀ i ∈ idxs, i < 2^h := fun i hx => by rw [← hn]; exact hi i hx
+  have hsz : t.nodes.length ≤ USIZE := by
+    rw [hm.1, hn, ← two_pow_succ]
+    have : 2^(h+1) ≤ 2^32 := two_pow_le_of_le (by omega)
+    have : (2:Nat)^32 ≤ 2^64 := by decide
+    unfold USIZE; omega
+  refine ⟨_, tree_inclusionProof H hn (by omega) hm hsz hi', honest_paths H hn hh' hm hi', ?_⟩
+  intro i hx
+  rw [tree_root H hn hm]
+  congr 1
+  have := foldPath_authPath H (leafFn filler ds h) h 0 (i + 2^h)
+  simp only [nodeVal, Nat.zero_add] at this
+  rw [this]
+  congr 1
+  have := hi' i hx
+  rw [Nat.div_eq_of_lt_le] <;> omega
+example : (do let t ← fromDigests Hx 0 256 [1, 2, 3, 4]; let p ← t.inclusionProof [2, 1]; intoAuthPaths Hx p)
+    = .ok [[4, 14], [1, 30]] := by decide +kernel
+
+/-- an out-of-range index (anywhere in the list) is an error, not a panic, for every accessor that takes indices -/
+theorem out_of_range_is_error (filler : D) (cutoff : Nat) {ds : List D} {h : Nat} {t : Tree D} (hn : ds.length = 2^h)
+    (hh : h ≤ MAX_TREE_HEIGHT) (ht : fromDigests H filler cutoff ds = .ok t) {idxs : List Nat}
+    (hbad : ∃ i ∈ idxs, ds.length ≤ i) :
+    t.inclusionProof idxs = .err .leafIndexInvalid ∧ t.authStructure idxs = .err .leafIndexInvalid ∧
+    t.indexedLeafs idxs = .err .leafIndexInvalid := by
+  have hh' : h ≤ 31 := hh
+  obtain ⟨t', ht', hm⟩ := fromDigests_ok H filler cutoff hn
+  rw [ht] at ht'; cases ht'
+  have hsz : t.nodes.length ≤ USIZE := by
+    rw [hm.1, hn, ← two_pow_succ]
+    have : 2^(h+1) ≤ 2^32 := two_pow_le_of_le (by omega)
+    have : (2:Nat)^32 ≤ 2^64 := by decide
+    unfold USIZE; omega
+  exact ⟨tree_inclusionProof_err H hn hm hsz hbad, tree_authStructure_err H hn (by omega) hm hbad,
+    tree_indexedLeafs_err H hm hsz hbad⟩
+example : (do let t ← fromDigests Hx 0 256 [1, 2, 3, 4]; t.inclusionProof [2, 4]) = .err .leafIndexInvalid := by
+  decide +kernel
+
 end TF.C10
